@@ -6,6 +6,8 @@
 import Lean.Data.Json
 import CxxModel.Ply
 import CxxModel.TokStream
+import CxxModel.Parser.Decl
+import CxxModel.ToJ
 import CxxModel.Gen.LexRules
 open Lean
 
@@ -120,11 +122,43 @@ def opStream (j : Json) : Json :=
   let (outs, err) := streamRun (getArr j "ops").toList b [] []
   Json.mkObj [("outs", Json.arr outs.toArray), ("err", jopt jerr err)]
 
+def blockName (h : BlockHdr) : String :=
+  match h.kind with
+  | .ns => P.joinWith "::" h.ns.names
+  | .ext => h.linkage
+  | .cls => (h.cls.typename.segments.getLast?.bind PQSeg.nameAttr).getD "<anon>"
+
+def getBool (j : Json) (k : String) (dflt : Bool) : Bool := (j.getObjValAs? Bool k).toOption.getD dflt
+
+def mkEnv (j : Json) : Env :=
+  let o := (j.getObjVal? "opts").toOption.getD (Json.mkObj [])
+  let skips := jsonStrs (getArr j "skip")
+  { cfg := cfg, mcRe := Gen.multicommentRe,
+    opts := { verbose := getBool o "verbose" false, convertVoidToZeroParams := getBool o "void" true },
+    skip := fun _ h => skips.contains (blockName h),
+    faultAt := (j.getObjValAs? Nat "fault").toOption }
+
+def jresult : ParseResult → Json
+  | .ok => Json.mkObj [("k", "ok")]
+  | .ctorRaised e => Json.mkObj [("k", "ctor"), ("cause", jerr e)]
+  | .parseError msg e => Json.mkObj [("k", "error"), ("msg", msg), ("cause", jerr e)]
+  | .raw e => Json.mkObj [("k", "raw"), ("cause", jerr e)]
+
+def opParse (j : Json) : Json :=
+  let text := strToStr (getStr j "text")
+  let filename := (getOptStr j "filename").getD "<str>"
+  let env := mkEnv j
+  let F := text.length + 16
+  let D := (j.getObjValAs? Nat "depth").toOption.getD 150
+  let (w, r) := runParse env filename text (P.parserProg F D)
+  Json.mkObj [("events", Json.arr (w.events.map J.event).toArray), ("result", jresult r), ("anon", toJson w.anon)]
+
 def handle (j : Json) : Json :=
   match getStr j "op" with
   | "lex" => opLex j
   | "re" => opRe j
   | "stream" => opStream j
+  | "parse" => opParse j
   | "ping" => Json.mkObj [("pong", Json.bool true)]
   | op => Json.mkObj [("error", Json.str s!"unknown op {op}")]
 
